@@ -1,6 +1,44 @@
-//! Property C07: correspondence and oracle (stub: nothing built yet).
+//! Property C07: each Luau-lowering rule removes every occurrence of its construct.
+use crate::luaucheck::{self, LuauCase, RULES};
+use crate::model::Model;
+use crate::progen::{self, Features};
 use crate::report::Report;
+use crate::rng::Rng;
+use crate::rulecheck::CaseResult;
+use serde_json::json;
 
 pub fn run(report: &mut Report, _replay: Option<&str>) {
-    report.notes.push("C07: no harness yet".to_owned());
+    let programs_per_thread: usize = if report.is_thorough() { 400 } else { 40 };
+    let threads = 12;
+    report.rule = "type-directed random Luau programs; each through every lowering rule alone".to_owned();
+    let seed = report.seed;
+    report.parallel(threads, |tid, r| {
+        let mut model = Model::spawn();
+        let mut rng = Rng::new(seed.wrapping_mul(1000).wrapping_add(tid as u64));
+        for _ in 0..programs_per_thread {
+            let (code, used) = progen::generate(&mut rng.fork(), Features::luau(), 60);
+            for u in &used {
+                r.hist("constructs", u);
+            }
+            for rule in RULES.iter() {
+                let json_text = format!("'{}'", rule);
+                let case = LuauCase { rule_name: rule, rule_json: &json_text, model_name: rule, check_census: true, check_behaviour: false };
+                let result = luaucheck::check_program(&mut model, r, &case, &code);
+                match &result {
+                    CaseResult::Fired => {
+                        r.hist("rule_fired", rule);
+                        r.case(Some((rule, &code)));
+                    }
+                    CaseResult::Trivial => r.case(None::<u8>),
+                    CaseResult::Skipped(why) => {
+                        r.hist("skipped", why);
+                        r.case(None::<u8>);
+                    }
+                }
+                if r.samples.is_empty() && result == CaseResult::Fired {
+                    r.sample(json!({"rule": rule, "code": code}));
+                }
+            }
+        }
+    });
 }
